@@ -41,7 +41,7 @@ var specHelperNames = map[string]bool{
 	"old": true, "athead": true, "held": true, "implies": true, "iff": true, "forall": true, "exists": true, "forall2": true, "forallk": true,
 	"Z": true, "result": true, "panics": true, "fresh": true, "strdigits": true, "parsedec": true,
 	"substr": true, "imin": true, "imax": true, "lower": true, "isnil": true, "typeis": true,
-	"sliceeq": true, "sameslice": true, "samemap": true, "visited": true, "psum": true, "let": true, "ite": true, "alloc": true,
+	"sliceeq": true, "sameslice": true, "samemap": true, "visited": true, "isclosed": true, "sameval": true, "psum": true, "let": true, "ite": true, "alloc": true,
 	"str": true, "bytesOf": true, "unchanged": true, "trunc": true,
 }
 
@@ -67,6 +67,8 @@ func fresh[T any](p T) bool             { return true }
 func sameslice[T any](a, b []T) bool    { return len(a) == len(b) }
 func samemap[K comparable, V any](a, b map[K]V) bool { return len(a) == len(b) }
 func visited[K comparable](k K) bool { return true }
+func isclosed[T any](c chan T) bool { return c == nil }
+func sameval[T any](a, b T) bool { return true }
 func sliceeq[T comparable](a, b []T) bool { return len(a) == len(b) }
 func str(b []byte) string               { return string(b) }
 func typeis[T any](v any) bool          { _, ok := v.(T); return ok }
@@ -507,7 +509,54 @@ func (g *genCtx) emitClause(c *Clause, prefix string, ps []clauseParam) {
 			ret = "int"
 		}
 	}
-	fmt.Fprintf(&g.b, "//line %s:%d\nfunc %s(%s) %s { return %s }\n\n", contractFileName, c.Line, c.FnSym, strings.Join(parts, ", "), ret, strings.ReplaceAll(c.Text, "\n", " "))
+	// clauses of a generic function / method of a generic type are generic in the same parameters
+	tps := ""
+	seenTP := map[string]bool{}
+	var tpNames []string
+	for _, p := range ps {
+		collectTypeParams(p.Type, seenTP, &tpNames, 0)
+	}
+	if len(tpNames) > 0 {
+		tps = "[" + strings.Join(tpNames, ", ") + " any]"
+	}
+	fmt.Fprintf(&g.b, "//line %s:%d\nfunc %s%s(%s) %s { return %s }\n\n", contractFileName, c.Line, c.FnSym, tps, strings.Join(parts, ", "), ret, strings.ReplaceAll(c.Text, "\n", " "))
+}
+
+func collectTypeParams(t types.Type, seen map[string]bool, out *[]string, depth int) {
+	if t == nil || depth > 6 {
+		return
+	}
+	switch u := t.(type) {
+	case *types.TypeParam:
+		if n := u.Obj().Name(); !seen[n] {
+			seen[n] = true
+			*out = append(*out, n)
+		}
+	case *types.Pointer:
+		collectTypeParams(u.Elem(), seen, out, depth+1)
+	case *types.Slice:
+		collectTypeParams(u.Elem(), seen, out, depth+1)
+	case *types.Array:
+		collectTypeParams(u.Elem(), seen, out, depth+1)
+	case *types.Chan:
+		collectTypeParams(u.Elem(), seen, out, depth+1)
+	case *types.Map:
+		collectTypeParams(u.Key(), seen, out, depth+1)
+		collectTypeParams(u.Elem(), seen, out, depth+1)
+	case *types.Named:
+		if ta := u.TypeArgs(); ta != nil {
+			for i := 0; i < ta.Len(); i++ {
+				collectTypeParams(ta.At(i), seen, out, depth+1)
+			}
+		}
+	case *types.Signature:
+		for i := 0; i < u.Params().Len(); i++ {
+			collectTypeParams(u.Params().At(i).Type(), seen, out, depth+1)
+		}
+		for i := 0; i < u.Results().Len(); i++ {
+			collectTypeParams(u.Results().At(i).Type(), seen, out, depth+1)
+		}
+	}
 }
 
 func generateSpecFile(p *packages.Package, pc *PkgContracts) (string, error) {
@@ -533,7 +582,18 @@ func generateSpecFile(p *packages.Package, pc *PkgContracts) (string, error) {
 		for _, c := range m.Invs {
 			g.n++
 			c.FnSym = fmt.Sprintf("gcvM_%s_%d", sanitize(m.Type), g.n)
-			fmt.Fprintf(&g.b, "//line %s:%d\nfunc %s(self *%s) bool { return %s }\n\n", contractFileName, c.Line, c.FnSym, m.Type, strings.ReplaceAll(c.Text, "\n", " "))
+			tps, targs := "", ""
+			if obj := p.Types.Scope().Lookup(m.Type); obj != nil {
+				if nt, ok := obj.Type().(*types.Named); ok && nt.TypeParams().Len() > 0 {
+					// monitor of a generic type: the invariant is generic in the same parameters
+					var ns []string
+					for i := 0; i < nt.TypeParams().Len(); i++ {
+						ns = append(ns, nt.TypeParams().At(i).Obj().Name())
+					}
+					tps, targs = "["+strings.Join(ns, ", ")+" any]", "["+strings.Join(ns, ", ")+"]"
+				}
+			}
+			fmt.Fprintf(&g.b, "//line %s:%d\nfunc %s%s(self *%s%s) bool { return %s }\n\n", contractFileName, c.Line, c.FnSym, tps, m.Type, targs, strings.ReplaceAll(c.Text, "\n", " "))
 		}
 	}
 	for _, fc := range pc.Funcs {
